@@ -263,6 +263,7 @@ TIER_OVERRIDE = [
     (r"^r1[bc]\..*_(l|r)_shift(\.value)?\.w64\.n4$", "thorough"),
     (r"^r0\.bn_digit_div__int(_short)?\.w64\.", "thorough"),
     (r"^r2\.bn_calc_(naf|jsf)\.", "thorough"),
+    (r"^r2\.bn_calc_jsf\.w8\.b8$", "quick"),  # (last match wins) quick tier: catches a dropped JSF carry (seeded C02-m3)
     (r"^r2\.bn_mult_digit\.w8\.n3$", "quick"),
     (r"^r2\.bn_div\.w8\.n2$", "quick"),
 ]
